@@ -44,9 +44,73 @@ type tok struct {
 	Iss    string `json:"iss"`
 	Sub    string `json:"sub"`
 	Jti    string `json:"jti"`
+	Nbf    string `json:"nbf"`
+	Iat    string `json:"iat"`
 	Life   string `json:"life"`
-	Time   string `json:"time"`
+	// exact values of the time claims (filled from the case's "tv"; part of the cache key)
+	TV timeValues `json:"-"`
 	Len    string `json:"len"`
+}
+
+// timeValues: durations in seconds as decimal text, computed by the specification (HttpGuard.tla TimeValues)
+type timeValues struct {
+	Nbf  string `json:"nbf"`  // now - nbf, or "missing"
+	Base string `json:"base"` // now - (start of the window exp is placed after)
+	Iat  string `json:"iat"`  // nbf - iat, or "missing" / "later" (between nbf and now) / "future" (now + 1 h)
+	Exp  string `json:"exp"`  // "rel:<exp - base>", "abs:<NumericDate>", "relstr:<exp - base>" (JSON string), "missing"
+}
+
+// rat parses a decimal ("NOW" = seconds since the epoch).
+func rat(v string, now int64) *big.Rat {
+	if v == "NOW" {
+		return new(big.Rat).SetInt64(now)
+	}
+	r, ok := new(big.Rat).SetString(v)
+	if !ok {
+		panic("bad number " + v)
+	}
+	return r
+}
+
+// numericDate renders r as a JSON number without loss (integers in full, halves as .5).
+func numericDate(r *big.Rat) json.Number {
+	if r.IsInt() {
+		return json.Number(r.Num().String())
+	}
+	return json.Number(r.FloatString(1))
+}
+
+// timeClaims computes iat/nbf/exp exactly from the abstract values (nil = claim absent).
+func timeClaims(tv timeValues, now int64) (iat, nbf, exp any) {
+	n := new(big.Rat).SetInt64(now)
+	base := new(big.Rat).Sub(n, rat(tv.Base, now))
+	if tv.Nbf != "missing" {
+		nbf = numericDate(new(big.Rat).Sub(n, rat(tv.Nbf, now)))
+	}
+	switch tv.Iat {
+	case "missing":
+	case "later": // strictly between nbf and now (when nbf is in the past)
+		half := new(big.Rat).Quo(rat(tv.Base, now), big.NewRat(2, 1))
+		half = new(big.Rat).SetInt(new(big.Int).Quo(half.Num(), half.Denom()))
+		iat = numericDate(new(big.Rat).Add(base, half))
+	case "future":
+		iat = numericDate(new(big.Rat).SetInt64(now + 3600))
+	default:
+		iat = numericDate(new(big.Rat).Sub(base, rat(tv.Iat, now)))
+	}
+	switch {
+	case tv.Exp == "missing":
+	case strings.HasPrefix(tv.Exp, "abs:"):
+		exp = json.Number(tv.Exp[4:])
+	case strings.HasPrefix(tv.Exp, "relrfc:"):
+		r := new(big.Rat).Add(base, rat(tv.Exp[7:], now))
+		exp = time.Unix(new(big.Int).Quo(r.Num(), r.Denom()).Int64(), 0).UTC().Format(time.RFC3339)
+	case strings.HasPrefix(tv.Exp, "relstr:"):
+		exp = string(numericDate(new(big.Rat).Add(base, rat(tv.Exp[7:], now))))
+	default:
+		exp = numericDate(new(big.Rat).Add(base, rat(tv.Exp[4:], now)))
+	}
+	return
 }
 
 type caseIn struct {
@@ -57,6 +121,7 @@ type caseIn struct {
 	Method string   `json:"method"`
 	Target []string `json:"target"`
 	Tok    tok      `json:"tok"`
+	TV     timeValues `json:"tv"`
 }
 
 type input struct {
@@ -360,27 +425,12 @@ func (w *world) tokens(t tok) map[string]string {
 	case "missing":
 		delete(claims, "jti")
 	}
-	switch t.Time {
-	case "expired":
-		claims["iat"], claims["nbf"], claims["exp"] = now-7200, now-7200, now-3600
-	case "future":
-		claims["iat"], claims["nbf"], claims["exp"] = now+3600, now+3600, now+7200
-	case "iat-after-nbf":
-		claims["nbf"], claims["iat"] = now-600, now-300
-	case "no-iat":
-		delete(claims, "iat")
-	case "no-nbf":
-		delete(claims, "nbf")
-	case "no-exp":
-		delete(claims, "exp")
-	}
-	if t.Life == "long" {
-		if _, ok := claims["exp"]; ok {
-			claims["exp"] = now + 48*3600
-			if t.Time == "expired" { // keep it expired: stretch backwards instead
-				claims["iat"], claims["nbf"] = now-50*3600, now-50*3600
-				claims["exp"] = now - 3600
-			}
+	iat, nbf, exp := timeClaims(t.TV, now)
+	for name, v := range map[string]any{"iat": iat, "nbf": nbf, "exp": exp} {
+		if v == nil {
+			delete(claims, name)
+		} else {
+			claims[name] = v
 		}
 	}
 	if t.Len == "long" {
@@ -525,6 +575,7 @@ func (w *world) run(c caseIn) (res result) {
 		sb.WriteString(a)
 	}
 	target := sb.String()
+	c.Tok.TV = c.TV
 	for _, cr := range w.credentials(c.Tok) {
 		st, reached, usr, err := in.request(c.Port, c.Method, target, cr.headers)
 		o := obs{Real: cr.real, Line: c.Method + " " + target + " HTTP/1.1", Auth: short(cr.headers), Status: st, Reached: reached, User: usr}
